@@ -2,16 +2,45 @@ package ast
 
 import "github.com/xjslang/xjs/token"
 
+type pendingMapping struct {
+	line, column int
+	name         string
+	named        bool
+}
+
 func (cw *CodeWriter) AddMapping(pos token.Position) {
 	if cw.Mapper == nil {
 		return
 	}
-	cw.Mapper.AddMapping(pos.Line, pos.Column)
+	cw.pendingMapping = &pendingMapping{line: pos.Line, column: pos.Column}
 }
 
 func (cw *CodeWriter) AddNamedMapping(sourceLine, sourceColumn int, name string) {
 	if cw.Mapper == nil {
 		return
 	}
-	cw.Mapper.AddNamedMapping(sourceLine, sourceColumn, name)
+	cw.pendingMapping = &pendingMapping{line: sourceLine, column: sourceColumn, name: name, named: true}
+}
+
+// commitMapping hands the recorded mapping to the mapper: the generated position is
+// the one of the character about to be written.
+func (cw *CodeWriter) commitMapping() {
+	m := cw.pendingMapping
+	if m == nil || cw.Mapper == nil {
+		return
+	}
+	cw.pendingMapping = nil
+	if m.named {
+		cw.Mapper.AddNamedMapping(m.line, m.column, m.name)
+	} else {
+		cw.Mapper.AddMapping(m.line, m.column)
+	}
+}
+
+// advanceMapper keeps the generated position in step with layout text that is written
+// to the buffer directly (pending white space, indentation, comments).
+func (cw *CodeWriter) advanceMapper(s string) {
+	if cw.Mapper != nil {
+		cw.Mapper.AdvanceString(s)
+	}
 }
